@@ -161,6 +161,20 @@ CHECKS = {
                 "message impossible the requester must get an abort, when they allow it the acknowledgement.",
         "note": "fault-free LAN; for responses the finer I-Am value is accepted when it rounds to the request's max-response code",
     },
+    "C11": {
+        "level": "exploration",
+        "design_ref": "DESIGN.md 3 C11",
+        "technique": "runtime monitor: unique tokens per request, token matching and invoke-id interval-overlap tests over the recorded boundary history; spoofing station injecting forged replies",
+        "text": "Up to three real client stacks and four real server stacks share one virtual LAN; each client keeps up "
+                "to 40 (and, for exhaustion, 300) requests outstanding, servers answer out of order after think times "
+                "longer than the request timeout so real retransmissions arrive while the original is being processed, "
+                "clients use equal invoke ids by construction, a spoofing station injects replies from foreign "
+                "addresses, with ids that are not live, replays after completion and stray segment-acks/aborts.  "
+                "Every confirmation must carry the token of the request with that peer and invoke id, no two live "
+                "requests of a client to a peer may share an id, no request may be confirmed twice or not at all, and "
+                "no request may be indicated to a server application twice while unanswered.",
+        "note": "forged frames with a live (peer, invoke id) pair are indistinguishable from genuine ones and are not injected",
+    },
 }
 
 NOT_APPLICABLE = {pid: _PENDING for pid in ("C%02d" % i for i in range(1, 21)) if pid not in CHECKS}
